@@ -87,6 +87,9 @@ def cases(seed, tier):
         pick = sysm if tier == "thorough" else rng.sample(sysm, 260)
         for name, code in pick:
             out.append({"name": "sys/cfg%d/%s" % (ci, name), "code": code, "config": cfg})
+    for name, op in gen.LONG_OPS:
+        for ctx, tmpl in (("fn_return", "function m() { return %s; }"), ("decl_init", "function m() { const v = %s; }")):
+            out.append({"name": "sys/long/%s/%s" % (ctx, name), "code": tmpl % op, "config": FULL_CFG})
     # a byte order mark in front of the text: positions are counted in the text behind it
     for name, code in rng.sample(sysm, 40):
         out.append({"name": "sys/bom/" + name, "code": "\ufeff" + code, "config": FULL_CFG})
